@@ -117,14 +117,32 @@ def snake(ctx, n, prefill):
     ctx.case(('snake', n, prefill), sample={'snake_len': n, 'prefill': prefill})
     ctx.count('snake')
     flags, bits, refs, fin, b = S.exec_builder([], ops)
-    cells_needed = 1 + max(0, -(-(n - (1023 - prefill) // 8) // 127)) if n else 1
-    if '0' in flags or fin == 'err':
-        # depth > 1023 is the only legitimate reason
-        if cells_needed <= 1024:
-            ctx.fail('snake-store', f'store_snake_bytes of {n} bytes refused', inp, flags + fin, 'stored')
+    # closed form of c06_snake_depth_exact: room (1023 - prefill) // 8 in the first builder, 127 bytes per tail cell
+    room = (1023 - prefill) // 8
+    depth = 0 if n <= room else -(-(n - room) // 127)
+    sn_flag = flags[-1]
+    # the model run with C01's depth-checking constructor: same flags, partial writes and end_cell outcome (all lengths)
+    ctx.expect_model(bline([], ops), f'ok {flags} {bits} {refs} {fin}', f'snake len {n} prefill {prefill}')
+    if depth > 1024:
+        # a tail cell of depth 1024 would be needed: store_snake_bytes itself must raise
+        if sn_flag != '0':
+            ctx.fail('snake-depth', f'store_snake_bytes of {n} bytes (prefill {prefill}) built a chain of depth {depth} > 1024', inp, flags + ' ' + fin, 'store raises')
         return
-    if cells_needed > 1024:
-        ctx.fail('snake-depth', f'store_snake_bytes of {n} bytes produced a chain of {cells_needed} cells (depth > 1023)', inp, 'stored', 'exception')
+    if '0' in flags:
+        ctx.fail('snake-store', f'store_snake_bytes of {n} bytes refused (chain depth {depth})', inp, flags + fin, 'stored')
+        return
+    if depth == 1024:
+        # every tail cell (depth <= 1023) exists, the root would have depth 1024: end_cell must raise
+        if fin != 'err':
+            ctx.fail('snake-depth', f'a snake of {n} bytes (prefill {prefill}) was finished into a cell of depth 1024', inp, fin, 'end_cell raises')
+        return
+    if fin == 'err':
+        ctx.fail('snake-store', f'end_cell refused a snake of {n} bytes with chain depth {depth} <= 1023', inp, flags + fin, 'stored')
+        return
+    got_depth = b.end_cell().get_depth()
+    ctx.count('snake-depth-checked')
+    if got_depth != depth:
+        ctx.fail('snake-depth-exact', f'chain depth of a {n}-byte snake with {prefill} bits prefilled is not ceil((n - room) / 127)', inp, got_depth, depth)
         return
     s = b.end_cell().begin_parse()
     if prefill:
@@ -135,8 +153,6 @@ def snake(ctx, n, prefill):
         back = e
     if prefill % 8 == 0 and back != data:
         ctx.fail('snake-load', f'load_snake_bytes differs from stored data (len {n})', inp, repr(back)[:100], data.hex()[:100])
-    if n <= 40000:
-        ctx.expect_model(bline([], ops), f'ok {flags} {bits} {refs} {fin}', f'snake len {n} prefill {prefill}')
     if n <= 2000 and prefill % 8 == 0:
         dag = S.cell_dag(b.end_cell())
         lops = ([f'sk:{prefill}'] if prefill else []) + ['lsn']
@@ -302,6 +318,14 @@ def run(ctx):
     snake(ctx, 127 * 1024 + 1, 0)
     snake(ctx, 127 * 1023, 1016)
     snake(ctx, 127 * 1023 + 1, 1016)
+    # depth 1025: the deepest tail cell cannot be built, store_snake_bytes itself raises; non-byte-aligned prefill at its boundaries
+    snake(ctx, 127 * 1025 + 1, 0)
+    snake(ctx, 127 * 1024, 1016)
+    snake(ctx, 127 * 1024 + 1, 1016)
+    snake(ctx, 127 + 127 * 1023, 3)
+    snake(ctx, 127 + 127 * 1023 + 1, 3)
+    snake(ctx, 126 + 127 * 1023, 11)
+    snake(ctx, 126 + 127 * 1023 + 1, 11)
     api_extras(ctx)
 
 
